@@ -20,11 +20,47 @@ CFG_KEYS = ['nounique', 'icase', 'case', 'nodir', 'scandotdir', 'globstar', 'dot
 
 def shards(tier, seed, scale=1.0):
     n = 400 if tier == 'quick' else 6000
-    return [{'name': 'union-%d' % s, 'kind': 'union', 'seed': seed * 1000 + s, 'n': max(10, int(n * scale))} for s in range(16)]
+    return [{'name': 'union-%d' % s, 'kind': 'union', 'seed': seed * 1000 + s, 'n': max(10, int(n * scale))} for s in range(16)] + \
+        [{'name': 'literal-%d' % t, 'kind': 'literal', 'tree': t} for t in (0, 2, 12, 15)]
 
 
 def run_shard(desc):
+    if desc['kind'] == 'literal':
+        return run_literal(desc)
     return run_union(desc)
+
+
+def run_literal(desc):
+    """Lists of literal patterns that name entries of one catalogue tree - with and without a trailing separator, in every order of
+    2 and of 3, delivered as a list, through BRACE and through SPLIT: the union of the single results (the first pattern of a list
+    must not decide how the directory is listed for the ones after it)."""
+    import itertools
+    out = Outcome()
+    out.exhaustive = True
+    armed = desc['armed']
+    spec = T.CATALOGUE[desc['tree']]
+    with FC.built_tree(spec) as (root, _r):
+        model = T.Model(root)
+        ents = [(p, d) for p, d, _l in model.all_entries(follow=False, max_depth=3)][:10]
+        pats = []
+        for p, is_dir in ents:
+            segs = tuple(A.lits(x) for x in p.split('/'))
+            pats.append(A.PathPat(False, segs, False, 1))
+            if is_dir:
+                pats.append(A.PathPat(False, segs, True, 1))
+        pats.append(A.PathPat(False, (A.lits('zz_missing'),), False, 1))
+        n = 0
+        for k in (2, 3):
+            perms = list(itertools.permutations(pats[:9] if k == 3 else pats, k))
+            step = max(1, len(perms) // 400)
+            for combo in perms[::step]:
+                n += 1
+                for cfg in ({}, {'mark': True}, {'nounique': True}, {'icase': True}):
+                    r = check_case(root, spec, list(combo), [], dict(cfg), 'exclude', ('list', 'brace', 'split', 'pathlib')[n % 4], out, armed)
+                if r is not None:
+                    out.nontrivial(('literal', desc['tree'], tuple(A.render_path(c) for c in combo)))
+    out.sample({'stream': 'literal lists', 'tree_index': desc['tree'], 'lists': n})
+    return out
 
 
 def check_case(root, spec, pps, excl, cfg, delivery, how, out, armed):
